@@ -4,6 +4,8 @@
 import DDV.Gen.AddrSem
 import DDV.Gen.Lemmas.Claimed
 import DDV.Gen.Lemmas.Refs
+import DDV.Gen.Lemmas.LowerTree
+import DDV.Props.C04
 
 namespace DDV.Props.C12
 open DDV.Gen
@@ -194,5 +196,38 @@ theorem ref_allows_overlap (n : Names) (cfg : GlobalConfig) (all : List Object) 
   · intro ov c t hov ht hc
     obtain ⟨m, h, _, _, _, _, _, h6, _⟩ := command_ref_method n cfg all rf ov c t fuel hov ht hc
     exact ⟨m, h, h6⟩
+
+/-! ### Instances of the definition (ref-free trees) -/
+
+/-- **An instance is an object at one combination of its own repeat index and the repeat indices of
+    its enclosing blocks — and those are exactly what the pass compares.** For a ref-free tree
+    whose lowering and expansion succeed and whose block names are distinct from each other and
+    from the device name: every entry of the expanded list is the address of a path through the
+    definition (`treeAddress`: Σ offset + index × stride …), and every path has an entry. -/
+theorem claimed_entries_are_the_instances_of_the_definition (n : Names) (cfg : GlobalConfig) (all : List Object)
+    (fuel fuel' : Nat) (deviceName : String) (os : List Object) (blocks : List LBlock) (cs : List Claimed)
+    (hrf : RefFreeList os)
+    (hl : collectIntoBlocks n cfg all fuel none deviceName true os = .ok blocks)
+    (hn : (blocks.map (·.name)).Nodup) :
+    ∃ root, blocks.head? = some root ∧
+      (claimedOfBlock n blocks fuel' root 0 [] = .ok cs →
+        (∀ c ∈ cs, ∃ tch, TreeChain os tch ∧ c.address = treeAddress tch 0) ∧
+        (∀ tch, TreeChain os tch → ∃ c ∈ cs, c.address = treeAddress tch 0)) := by
+  obtain ⟨root, rest, hb, _, _, hm, h1, h2⟩ := instances_of_the_definition n cfg all fuel deviceName os blocks hrf hl hn
+  refine ⟨root, by rw [hb]; rfl, ?_⟩
+  intro hc
+  have spec := instances_are_accessor_chains n blocks fuel' root cs hc
+  constructor
+  · intro c hcm
+    obtain ⟨ch, l1, l2⟩ := spec.1 c hcm
+    obtain ⟨tch, t1, t2⟩ := h2 ch l1
+    refine ⟨tch, t1, ?_⟩
+    rw [l2.1, t2]
+    exact specChain_lift n cfg tch 0 (fun x hx => (DDV.Props.C04.treeChain_valid t1 hrf x hx).1)
+  · intro tch ht
+    obtain ⟨c, hcm, l⟩ := spec.2 _ (h1 tch ht)
+    refine ⟨c, hcm, ?_⟩
+    rw [l.1]
+    exact specChain_lift n cfg tch 0 (fun x hx => (DDV.Props.C04.treeChain_valid ht hrf x hx).1)
 
 end DDV.Props.C12
